@@ -1579,3 +1579,88 @@ pub fn long_signature_behind_failing_lookup(ctx: &mut Ctx, prop: &str) {
     }
     run_jobs(ctx, "VALIDATE", jobs);
 }
+
+// =============================================================================================
+// Stages added after the tenth (small) round of seeded changes
+
+/// Extended-form timestamps of one month but different days, parsed and validated back to back; and the years 0000-0004,
+/// 0100, 0400 with every month (the instant of `YYYY-MM-15T12:00:00Z`), three-way.
+pub fn same_month_days_and_early_years(ctx: &mut Ctx, prop: &str) {
+    let mut rng = ctx.rng.fork();
+    let pc = prop.to_lowercase();
+    // (a) direct: ISO parse sequences
+    let mut texts: Vec<String> = Vec::new();
+    for k in 0..ctx.n(20, 200) {
+        let (d1, d2) = (1 + rng.below(28), 1 + rng.below(28));
+        let mo = 1 + rng.below(12);
+        let y = *rng.pick(&[2015, 2016, 2020, 1999]);
+        let hh = rng.below(24);
+        let sep = if k % 3 == 0 { "" } else { "-" };
+        texts.push(format!("{:04}{}{:02}{}{:02}T{:02}:50:00Z", y, sep, mo, sep, d1, hh));
+        texts.push(format!("{:04}{}{:02}{}{:02}T00:01:00Z", y, sep, mo, sep, d2));
+        texts.push(format!("{:04}{}{:02}{}{:02}T{:02}:50:00Z", y, sep, mo, sep, d1, hh));
+    }
+    for y in [0, 1, 2, 3, 4, 100, 400, 1600, 1969, 1970] {
+        for mo in 1..=12 {
+            for d in [1, 15, 28] {
+                texts.push(format!("{:04}{:02}{:02}T120000Z", y, mo, d));
+                texts.push(format!("{:04}-{:02}-{:02}T12:00:00.5+00:30", y, mo, d));
+            }
+        }
+    }
+    let lines: Vec<String> = texts.iter().map(|t| format!("ISO {}", hx(t.as_bytes()))).collect();
+    let imps: Vec<String> = texts.iter().map(|t| imp::iso(t)).collect();
+    let answers = ctx.drv.ask_all(&lines);
+    for ((t, im), mo) in texts.iter().zip(imps.iter()).zip(answers.iter()) {
+        ctx.rep.count("evaluations");
+        ctx.rep.count("evaluations.ISO");
+        let sp = match rs::ref_parse_iso(t.as_bytes()) {
+            Some(ns) => format!("OK {}", ns),
+            None => "NONE".to_string(),
+        };
+        if !imp::same_outcome(im, mo) {
+            fail(ctx, "CORR", "ISO", &format!("{}-date-sequences", pc), format!("ISO {}", t), im.clone(), mo.clone(), sp.clone(), "implementation and model disagree on a timestamp (early year, or parsed right after another date of the same month)");
+        }
+        if *im != sp {
+            fail(ctx, "ORACLE", "ISO", &format!("{}-date-sequences", pc), t.clone(), im.clone(), mo.clone(), sp, "C16/C04: the instant a timestamp denotes is that of the reference parser, whatever was parsed before it and however early the year");
+        }
+    }
+    // (b) end to end: two requests a day apart in the same month, extended form, judged against their own clocks
+    let mut jobs = Vec::new();
+    for k in 0..ctx.n(10, 150) {
+        let day = 86_400_000_000_000i128;
+        let t1 = T0 + (k as i128 % 5) * 1_000_000_000;
+        for (t, fresh) in [(t1, true), (t1 + day, true), (t1, false), (t1 + day, true)] {
+            let mut l = simple_logical(if k % 2 == 0 { Carrier::Header } else { Carrier::Query }, t);
+            l.time_style = (0, 0b11111, 0); // extended form: dashes and colons
+            // `fresh`: validated at its own time; otherwise against a clock a day later (stale)
+            let now = if fresh { now_for(&l, 0) } else { now_for(&l, day) };
+            let s = sign_and_spell(&l, &mut rng, &Spelling::plain(), now);
+            if fresh {
+                jobs.push(accept_job(&s, &format!("{}-date-sequences", pc), "C04: a request inside the window is accepted whatever date was validated before it on this thread"));
+            } else {
+                let mut j = job(s.case.clone(), Expect::Refuse(Some("SignatureDoesNotMatch")), &format!("{}-date-sequences", pc), "C04: a request a day old is refused whatever date was validated before it on this thread");
+                j.expect_calls = Some(0);
+                jobs.push(j);
+            }
+        }
+    }
+    run_jobs(ctx, "VALIDATE", jobs);
+}
+
+/// Accepted requests whose provider answer carries no principal (and no session data), at both log levels.
+pub fn empty_principal_accepts(ctx: &mut Ctx, prop: &str) {
+    let mut rng = ctx.rng.fork();
+    let mut jobs = Vec::new();
+    for k in 0..ctx.n(8, 80) {
+        let l = simple_logical(if k % 2 == 0 { Carrier::Header } else { Carrier::Query }, T0);
+        let now = now_for(&l, 0);
+        let s = sign_and_spell(&l, &mut rng, &Spelling::plain(), now);
+        let mut c = s.case.clone();
+        c.answer = Answer::Key { key: s.key.clone(), identity: "-".into() };
+        for _ in 0..2 {
+            jobs.push(accept_job_case(c.clone(), &s, &format!("{}-empty-principal", prop.to_lowercase()), "C08/C15: a provider answer without principal or session data is a valid answer: the request is accepted (and nothing panics) at every log level"));
+        }
+    }
+    run_jobs(ctx, "VALIDATE", jobs);
+}
